@@ -220,6 +220,50 @@ theorem raises_if_nothing_evaluated (cfg : Cfg) (script : List Step) (r : Result
           rw [hinv.gen]
           exact List.length_pos_iff.mpr hne'
 
+/-- **The limits are honoured in runs with failing operators too.**  If the application of `script[k]` raises after having
+reported evaluations and results (which may be the very application that reaches a limit), every operator that was started —
+including the failing one — was started below every limit and before the criterion answered *terminate*; in particular
+nothing is started after the failure. -/
+theorem no_start_after_limit_with_faults (cfg : Cfg) (script : List Step) (faultAt : Option Nat) (o : OutcomeF)
+    (started : List St) (h : solveF cfg script faultAt = (o, started)) (i : Nat) (h1 : i < started.length)
+    (h2 : i < script.length) :
+    (started[i]).terminate = false ∧
+    (∀ m, cfg.maxEvals = some m → total started[i] < m ∧ ∀ e, (script[i]).est = some e → total started[i] + (e : Int) < m) ∧
+    (∀ g, cfg.maxGen = some g → (started[i]).nGen < g) := by
+  unfold solveF at h
+  cases faultAt with
+  | none =>
+    simp only [Prod.mk.injEq] at h
+    obtain ⟨_, rfl⟩ := h
+    exact no_start_after_limit cfg script (solve cfg script).1 _ rfl i h1 h2
+  | some k =>
+    simp only at h
+    split at h
+    · rename_i hc
+      simp only [Prod.mk.injEq] at h
+      obtain ⟨_, rfl⟩ := h
+      have hi : i < (script.take (k + 1)).length := by
+        rw [List.length_take]; omega
+      have := no_start_after_limit cfg (script.take (k + 1)) (solve cfg (script.take (k + 1))).1 _ rfl i h1 hi
+      simp only [List.getElem_take] at this
+      exact this
+    · simp only [Prod.mk.injEq] at h
+      obtain ⟨_, rfl⟩ := h
+      exact no_start_after_limit cfg script (solve cfg script).1 _ rfl i h1 h2
+
+/-- a failing operator ends the run: when `script[k]` raises, exactly the applications `0..k` were started -/
+theorem fault_stops_run (cfg : Cfg) (script : List Step) (k : Nat) (started : List St)
+    (h : solveF cfg script (some k) = (.operatorRaised, started)) : started.length = k + 1 ∧ k < script.length := by
+  unfold solveF at h
+  simp only at h
+  split at h
+  · rename_i hc
+    simp only [Prod.mk.injEq] at h
+    obtain ⟨_, rfl⟩ := h
+    exact ⟨hc.2, hc.1⟩
+  · simp only [Prod.mk.injEq] at h
+    exact absurd h.1 (by intro hh; cases hh)
+
 /-! ## Non-vacuity -/
 
 def exScript : List Step :=
@@ -237,5 +281,12 @@ example : (match (solve ⟨none, some 10, false⟩ exScript).1 with
 -- nothing evaluated: raises
 example : (match (solve ⟨some 0, none, false⟩ exScript).1 with | .raisedNothingEvaluated => true | _ => false) = true := by
   decide +kernel
+
+-- the second selection (index 4) raises after reporting: the run ends there, 5 applications were started
+example : (match solveF ⟨some 2, none, false⟩ exScript (some 4) with
+    | (.operatorRaised, st) => decide (st.length = 5) | _ => false) = true := by decide +kernel
+-- with a budget of 10 the loop stops before index 4: the fault plays no role
+example : (match solveF ⟨none, some 10, false⟩ exScript (some 4) with
+    | (.normal (.ok r), _) => decide (r.generations = 1) | _ => false) = true := by decide +kernel
 
 end QVerif.Solver
